@@ -518,9 +518,30 @@ async fn h_write(w: &mut StreamWriter<SimWrite>, st_world: &Shared, idx: usize, 
             Some(l) => l,
             None => { let mut wl = lock(st_world); if chunk.len() > 1 && wl.cx.ch.chance(1, 5) { let l = wl.cx.ch.range(1, chunk.len() - 1); wl.cx.probe("write_repolled_with_longer_buffer"); l } else { chunk.len() } }
         };
+        // the rarely used route: a gathered write of the same bytes cut into 2..4 slices (some possibly empty); it
+        // may accept any non-empty prefix of them
+        let cuts: Option<Vec<usize>> = if carry.is_none() && first_len == chunk.len() && chunk.len() >= 2 {
+            let mut wl = lock(st_world);
+            if wl.cx.ch.chance(1, 6) {
+                let k = 1 + wl.cx.ch.pick(3) as usize;
+                let mut c: Vec<usize> = (0..k).map(|_| wl.cx.ch.range(0, chunk.len())).collect();
+                c.sort();
+                wl.cx.probe("handler_write_vectored");
+                Some(c)
+            } else { None }
+        } else { None };
         // a retried write continues the record set up before: it must not offer a shorter buffer
         let mut polls = if carry.is_some() { 1u32 } else { 0u32 };
+        let vectored = cuts.is_some();
         let r = poll_fn(|cx| {
+            if let Some(c) = &cuts {
+                let mut slices: Vec<io::IoSlice<'_>> = Vec::new();
+                let mut a = 0usize;
+                for &b in c { slices.push(io::IoSlice::new(&chunk[a..b])); a = b; }
+                slices.push(io::IoSlice::new(&chunk[a..]));
+                polls += 1;
+                return Pin::new(&mut *w).poll_write_vectored(cx, &slices);
+            }
             let b = if polls == 0 { &chunk[..first_len] } else { chunk };
             polls += 1;
             Pin::new(&mut *w).poll_write(cx, b)
@@ -530,7 +551,7 @@ async fn h_write(w: &mut StreamWriter<SimWrite>, st_world: &Shared, idx: usize, 
                 carry = None;
                 let mut wl = lock(st_world);
                 wl.cx.ev("h_write_ok", n as u64, u64::from(stream));
-                if n != first_len.min(65535) {
+                if !vectored && n != first_len.min(65535) {
                     wl.handler_log[idx].violation.get_or_insert(Violation::new("c10_write_count", "announced_length", format!("poll_write returned {n} for a record set up with a {first_len}-byte buffer (re-polled {} times with {} bytes)", polls - 1, chunk.len())));
                 }
                 let inv = &mut wl.handler_log[idx];
@@ -549,7 +570,11 @@ async fn h_write(w: &mut StreamWriter<SimWrite>, st_world: &Shared, idx: usize, 
                     // documented: after an error the lock is kept and a subsequent call continues the record
                     wl.cx.probe("failed_write_retried");
                     wl.cx.ev("h_write_retry", 0, u64::from(stream));
-                    carry = Some(first_len);
+                    // (a gathered write announced its first non-empty slice)
+                    carry = Some(match &cuts {
+                        Some(c) => { let mut a = 0usize; let mut l = chunk.len(); for &b in c { if b > a { l = b - a; break; } a = b; } if l == chunk.len() { chunk.len() - a } else { l } }
+                        None => first_len,
+                    });
                     continue;
                 }
                 let rp = wl.read_pos;
@@ -652,8 +677,10 @@ async fn handler_body(req: &mut Req<'_>, world: Shared, mode: HandlerMode) -> io
         w.handler_log.len() - 1
     };
     let propagate = { let mut w = lock(&world); let p = w.cx.ch.chance(3, 4); p || w.force_propagate };
-    let mut st = HState { final_reached: false, world: world.clone(), idx, mode, active: if streams.is_empty() { None } else { Some(0) }, streams, propagate, abandoned: false };
-    vcheck_h(&st, req.active_stream().map(u8::from) == streams.first().copied(), "c18_initial", "initial active stream wrong");
+    let preselected = lock(&world).preselected;
+    let active0 = if preselected { req.active_stream().and_then(|t| streams.iter().position(|&s| s == u8::from(t))) } else if streams.is_empty() { None } else { Some(0) };
+    let mut st = HState { final_reached: false, world: world.clone(), idx, mode, active: active0, streams, propagate, abandoned: false };
+    if !preselected { vcheck_h(&st, req.active_stream().map(u8::from) == streams.first().copied(), "c18_initial", "initial active stream wrong"); }
     st.sample_writeable(req);
     let r = match mode {
         HandlerMode::Writers => handler_writers(req, &mut st).await,
@@ -1668,6 +1695,103 @@ fn first_begin(plan: &Plan, rp: &ReqPlan) -> usize {
 
 
 pub const C09_PROBES: &[&str] = &["stream_advanced_between_polls_of_a_read", "async_reselect_current", "vectored_read", "writeable_true_sampled", "writeable_false_sampled", "eof_observed", "filter_role"];
+
+pub const C09D_PROBES: &[&str] = &["direct_later_stream_preselected", "direct_lookahead_in_sync_parser", "direct_filter_role", "writeable_true_sampled", "writeable_false_sampled"];
+
+/// C09, the other construction route: the caller puts the request together by hand - the sync request parser over
+/// the preamble (with or without look-ahead), `into_stream_parser()`, optionally the later stream selected on the
+/// sync parser already - and hands it to `Request::new`. Reads and output gating obey the same statement.
+pub fn c09_direct(cx: &mut Ctx) -> VResult {
+    cx.declare(F_TRANSPORT, P_BASE);
+    cx.declare(F_SPURIOUS, &[]);
+    cx.declare(&[], C09D_PROBES);
+    // no management records: on this route their replies are the caller's business
+    let o = PlanOpts { max_reqs: 1, noise: 0, closed_loop: false, abort: false, small_buf_bias: cx.ch.chance(1, 2), force_keep: false, either_noise: false, pipelined: false, burst: false };
+    let plan = gen_plan(cx, &o);
+    note_plan(cx, &plan);
+    let knobs = gen_knobs(cx, true, plan.wire.len());
+    let rp0 = &plan.reqs[0];
+    let streams = role_streams(rp0.role);
+    if rp0.role == FILTER { cx.probe("direct_filter_role"); }
+    let cfg: &'static fastcgi_server::Config = Box::leak(Box::new(config(plan.bufsize, plan.max_conns)));
+    let mut parser = fastcgi_server::parser::request::Parser::new(cfg);
+    let wire = &plan.wire;
+    let lookahead = cx.ch.chance(1, 2);
+    let limit = if lookahead { wire.len() } else { rp0.info.end };
+    let mut pos = 0usize;
+    let mut replies = 0usize;
+    loop {
+        let space = parser.input_buffer().len();
+        let k = space.min(limit - pos).min(if cx.ch.chance(1, 3) { cx.ch.range(1, 40) } else { usize::MAX });
+        if k == 0 { panic!("harness: sync part of the direct route cannot make progress (pos {pos}, limit {limit}, space {space})"); }
+        parser.input_buffer()[..k].copy_from_slice(&wire[pos..pos + k]);
+        pos += k;
+        let st = parser.parse(k);
+        replies += st.output.len();
+        if st.done { break; }
+    }
+    assert!(replies == 0, "harness: plan without management records produced replies");
+    if pos > rp0.info.end { cx.probe("direct_lookahead_in_sync_parser"); }
+    let mut sp = match guard(move || parser.into_stream_parser()) {
+        Ok(Ok(sp)) => sp,
+        Ok(Err(e)) => vfail!("c01_result", "", "into_stream_parser failed on the direct route: {e:?}"),
+        Err(p) => vfail!("panic", "into_stream_parser", "{p}"),
+    };
+    let preselect = streams.len() == 2 && cx.ch.chance(1, 2);
+    if preselect {
+        let t = RecordType::try_from(streams[1]).expect("type");
+        if let Err(e) = sp.set_stream(Some(t)) { vfail!("c18_selection", "", "legal set_stream({t:?}) on the sync parser failed: {e:?}"); }
+        cx.probe("direct_later_stream_preselected");
+    }
+    cx.nontrivial = true;
+    let inner = take_cx(cx);
+    let mut world = World::new(inner, knobs, plan.wire.clone(), vec![Seg { end: plan.wire.len(), gate: Gate::Open }]);
+    world.sent = pos;
+    world.avail = pos;
+    world.read_pos = pos;
+    world.preselected = preselect;
+    let shared: Shared = std::sync::Arc::new(std::sync::Mutex::new(world));
+    let mut ex = Exec::new(shared.clone());
+    let sh2 = shared.clone();
+    let fut = async move {
+        let mut req = Request::new(sp, SimRead(sh2.clone()), SimWrite(sh2.clone()));
+        let _ = handler_body(&mut req, sh2, HandlerMode::Readers).await;
+    };
+    ex.tasks.push(Task::new("conn", Box::pin(fut)));
+    let end = match ex.run(&mut |_, _| Vec::new()) { RunEnd::Quiescent => "quiescent", _ => "step_cap" };
+    let task_done = ex.tasks[0].done();
+    let task_panicked = ex.tasks[0].panicked.clone();
+    drop(ex);
+    let world = {
+        let mut g = lock(&shared);
+        let dummy = World::new(Ctx::new(Chooser::replay(Vec::new()), false), knobs, Vec::new(), Vec::new());
+        std::mem::replace(&mut *g, dummy)
+    };
+    let mut out = ConnOutcome { task_done, task_panicked, end, world, shutdown_done: false, shutdown_polls_pending_while_live: false, shutdown_ready_while_live: false };
+    give_back(cx, &mut out);
+    vcheck!(out.end == "quiescent", "hang", "step cap reached on the direct route");
+    if let Some(p) = &out.task_panicked { vfail!("panic", "direct_request", "{p}"); }
+    vcheck!(out.task_done, "c09_stalled", "the handler on the hand-built request never finished (suspended on read: {})", out.world.read_waker.is_some());
+    handler_violations(&out)?;
+    let rp = &plan.reqs[0];
+    let n = streams.len();
+    for inv in out.world.handler_log.iter().take(1) {
+        for &(v, a, at) in &inv.writeable_samples {
+            cx.probe(if v { "writeable_true_sampled" } else { "writeable_false_sampled" });
+            if v {
+                vcheck!(n <= 1 || a == n - 1, "c09_writeable_early", "hand-built request (role {}) reports writeable while the active stream index is {a} of {n}", rp.role);
+                for j in 0..n.saturating_sub(1) {
+                    let reached = rp.sm.stop[j].map_or(false, |s| s + 8 <= at);
+                    vcheck!(reached, "c09_writeable_early", "hand-built request reports writeable after {at} input bytes, before the end of stream {} (at {:?}) was received", streams[j], rp.sm.stop[j]);
+                }
+            }
+            if n <= 1 { vcheck!(v, "c09_writeable_late", "hand-built request with {n} input stream(s) is not writeable from the start"); }
+        }
+    }
+    // handler input and output records (no epilogue on this route: the log simply stops)
+    check_history_mode(&out, &plan, false, "c09", true, usize::MAX, true)?;
+    Ok(())
+}
 
 /// C09: async read interfaces and output gating.
 pub fn c09(cx: &mut Ctx) -> VResult {
